@@ -26,11 +26,14 @@ type Sim struct {
 	// BeforeNodeDeliver, when set, runs immediately before the block is handed to the node (after the
 	// reference has processed it) - used to start a snapshot save right before a commit.
 	BeforeNodeDeliver func()
+	// XCheckEvery: every n-th generated input (and every input built to be invalid) is verified by the
+	// independent script interpreter refscript and must match the generator's intent (0 = off).
+	XCheckEvery int
 }
 
 func NewSim(run *vlib.Run, r *vlib.Rand, p refchain.Params, dir string, o NodeOpts) *Sim {
 	ref := refchain.NewChain(p, func() int64 { return time.Now().Unix() })
-	s := &Sim{N: OpenNode(dir, p, o), Ref: ref, Run: run, CompareUTXOEvery: 1}
+	s := &Sim{N: OpenNode(dir, p, o), Ref: ref, Run: run, CompareUTXOEvery: 1, XCheckEvery: 3}
 	s.G = NewGen(r, p, ref)
 	return s
 }
@@ -45,6 +48,14 @@ func (s *Sim) Offer(b *refchain.Block, family string) (refchain.Result, DeliverR
 
 func (s *Sim) OfferRaw(b *refchain.Block, raw []byte, family string) (refchain.Result, DeliverResult, bool) {
 	s.deliveries++
+	if s.XCheckEvery > 0 && b.Prev == s.Ref.Tip.Hash {
+		if d, n := CrossCheckScripts(s.N.P, b, s.Ref.Tip.Height+1, s.Ref.Utxo, s.XCheckEvery); d != "" {
+			s.Run.Inconclusive("generator ground truth vs refscript (%s): %s", family, d)
+			return refchain.Result{}, DeliverResult{}, false
+		} else {
+			s.Run.Count("inputs_cross_checked_by_refscript", int64(n))
+		}
+	}
 	rr := s.Ref.Deliver(b)
 	if s.BeforeNodeDeliver != nil {
 		s.BeforeNodeDeliver()
